@@ -21,7 +21,9 @@ from fv.report import Report
 ATOM_TEXT = {"a": "x12", "b": "x21", "c": "yy1", "d": "y1y", "F": "f(x, 2)", "H": "np.log(z)", "Q": "`q q`", "g": "g12", "h": "g21", "k": "k",
              # calls that differ from F only in one place (argument value, keyword value, keyword name, callee)
              "K": "f(x, k=2)", "L": "f(x, k=3)", "M": "f(x, j=2)", "N": "f(x, 3)", "O": "f2(x, 2)", "P": "f(z, 2)",
-             "R": "f(np.abs(x), 2)", "S": "f(x + 1, 2)"}
+             "R": "f(np.abs(x), 2)", "S": "f(x + 1, 2)",
+             # a column whose back-quoted name spells a call; a unary and a binary operator of the same sign on the same operand
+             "U": "`f(x, 2)`", "V": "I(-x)", "W": "I(x - z)"}
 TEXT_ATOM = {v: k for k, v in ATOM_TEXT.items()}
 TEXT_ATOM["q q"] = "Q"
 PREC = {"+": 4, "-": 4, "*": 5, "/": 5, ":": 6}
@@ -221,7 +223,7 @@ def gen_rhs(rng, depth):
 
 
 def _gen_rhs(rng, depth):
-    atoms = ["a", "b", "c", "d", "F", "H", "Q"] + rng.sample(["K", "L", "M", "N", "O", "P", "R", "S"], 2)
+    atoms = ["a", "b", "c", "d", "F", "H", "Q"] + rng.sample(["K", "L", "M", "N", "O", "P", "R", "S", "U", "U", "V", "W", "V", "W"], 3)
     n = rng.randint(1, 5)
     f = ["one"]
     first = True
